@@ -2,8 +2,10 @@ use crate::engine::Tier;
 use crate::sut::Sut;
 
 pub mod c02;
+pub mod c03;
 pub mod c04;
 pub mod c11;
+pub mod c13;
 pub mod c17;
 pub mod c18;
 pub mod c19;
@@ -48,8 +50,10 @@ macro_rules! dispatch {
 
 dispatch! {
     "C02" => c02,
+    "C03" => c03,
     "C04" => c04,
     "C11" => c11,
+    "C13" => c13,
     "C17" => c17,
     "C18" => c18,
     "C19" => c19,
